@@ -585,6 +585,48 @@ def gen_reader_script(rng, natoms, nonneg=False):
 # ----------------------------------------------------------------------------- real implementation
 
 
+MISSING = "<private-state-not-available>"
+
+
+def priv(obj, name):
+    """a PRIVATE attribute of a library object, or MISSING when the library no longer has it under that name (a rename
+    in a refactor must cost a comparison of internals, not the check: §9.20)"""
+    try:
+        return getattr(obj, name)
+    except AttributeError:
+        return MISSING
+
+
+def file_attr(g):
+    """name of the attribute of a GroFile that holds its open file object (`_file` today): found by type, not by name"""
+    import io
+    d = getattr(g, "__dict__", {})
+    if "_file" in d:
+        return "_file"
+    for k, v in d.items():
+        if isinstance(v, (io.IOBase, SnapFile)):
+            return k
+    return "_file"
+
+
+def gfile(g):
+    return getattr(g, file_attr(g))
+
+
+def _fmt_of(r):
+    """(position format, velocities?) of a reader: the public `position_format`; the velocity flag is private"""
+    f = priv(r, "_format")
+    if f is not MISSING:
+        try:
+            return tuple(f["position"]), bool(f["velocities"])
+        except Exception:   # noqa: BLE001
+            pass
+    try:
+        return tuple(r.position_format), MISSING
+    except Exception:       # noqa: BLE001
+        return MISSING, MISSING
+
+
 class SnapFile:
     """stands in for `GroFile._file`: delegates everything, flushes after every `write` and calls back"""
 
@@ -681,7 +723,7 @@ def run_session_chunked(path, ops, chunks):
                 errs[i] = type(e).__name__
             i += 1
         try:
-            g._file.close()
+            gfile(g).close()
         except Exception:               # noqa: BLE001
             pass
     return errs, read_bytes(path), []
@@ -702,7 +744,8 @@ def run_session(path, ops, snap=False):
             def cb(_s):
                 snaps.append((state["op"], state["w"], read_bytes(path)))
                 state["w"] += 1
-            g._file = SnapFile(g._file, cb)
+            fa = file_attr(g)
+            setattr(g, fa, SnapFile(getattr(g, fa), cb))
         for i, op in enumerate(ops):
             state["op"], state["w"] = i, 0
             try:
@@ -712,12 +755,12 @@ def run_session(path, ops, snap=False):
                 errs.append(type(e).__name__)
             if snap:
                 try:
-                    g._file.flush()
+                    gfile(g).flush()
                 except ValueError:
                     pass
                 snaps.append((i, None, read_bytes(path)))
         try:
-            g._file.close()
+            gfile(g).close()
         except Exception:               # noqa: BLE001
             pass
     return errs, read_bytes(path), snaps
@@ -756,11 +799,10 @@ def read_back(path):
         try:
             out["title"] = r.comment
             out["natoms"] = r.natoms
-            out["fmt"] = tuple(r._format["position"])
-            out["vel"] = bool(r._format["velocities"])
+            out["fmt"], out["vel"] = _fmt_of(r)
             out["box"] = [float(v) for v in r.box_matrix.ravel()]
-            out["init"] = r._init_position
-            out["size"] = r._atomline_bytesize
+            out["init"] = priv(r, "_init_position")
+            out["size"] = priv(r, "_atomline_bytesize")
             try:
                 out["recs"] = [tuple(x) for x in r.readlines()]
             except Exception as e:      # noqa: BLE001
@@ -771,8 +813,9 @@ def read_back(path):
 
 
 def _reader_header(r):
-    return (r._comment, r._natoms, r._init_position, r._atomline_bytesize,
-            tuple(r._format["position"]), bool(r._format["velocities"]), r._box_matrix.tobytes())
+    bm = priv(r, "_box_matrix")
+    return (priv(r, "_comment"), priv(r, "_natoms"), priv(r, "_init_position"), priv(r, "_atomline_bytesize"),
+            _fmt_of(r), bm.tobytes() if bm is not MISSING else r.box_matrix.tobytes())
 
 
 def run_reader(path, rops):
@@ -787,9 +830,11 @@ def run_reader(path, rops):
             r = GroFile(path)
         except Exception as e:          # noqa: BLE001
             return {"open_err": type(e).__name__}
-        out = {"title": r.comment, "natoms": r.natoms, "fmt": tuple(r._format["position"]),
-               "vel": bool(r._format["velocities"]), "box": [float(v) for v in r.box_matrix.ravel()],
-               "init": r._init_position, "size": r._atomline_bytesize, "results": [], "header_changed": []}
+        fmt_, vel_ = _fmt_of(r)
+        out = {"title": r.comment, "natoms": r.natoms, "fmt": fmt_,
+               "vel": vel_, "box": [float(v) for v in r.box_matrix.ravel()],
+               "init": priv(r, "_init_position"), "size": priv(r, "_atomline_bytesize"), "results": [],
+               "header_changed": []}
         hdr = _reader_header(r)
         try:
             for i, op in enumerate(rops):
@@ -832,12 +877,12 @@ def run_reader(path, rops):
                     res = call()
                 except Exception as e:      # noqa: BLE001 - the class is the observable
                     res = ("E", type(e).__name__)
-                out["results"].append((res, r._file.tell(), r._current_atom))
+                out["results"].append((res, gfile(r).tell(), priv(r, "_current_atom")))
                 if _reader_header(r) != hdr:
                     out["header_changed"].append(i)
                     hdr = _reader_header(r)
         finally:
-            r._file.close()
+            gfile(r).close()
     return out
 
 
@@ -924,7 +969,7 @@ def compare_read(impl: dict, model: dict):
     except UnicodeEncodeError:
         return "title"
     for k in ("natoms", "init", "size", "fmt", "vel"):
-        if impl[k] != model[k]:
+        if impl[k] != model[k] and impl[k] is not MISSING:
             return k
     if not all(same_float(a, b) for a, b in zip(impl["box"], model["box"])):
         return "box"
